@@ -1,6 +1,184 @@
-From Label Require Import LModel Iso Linear GenLabelFacts.
+(** C05 -- Isotopomer expansion preserves base structure, totals and dynamics.
+
+    ONLY theorem statements (written out in full), each closed by [exact <lemma>] and followed by
+    [Print Assumptions].  The model is coq/label/Iso.v (src/mxlpy/label_map.py statement by statement);
+    [gen_label_facts] is REGENERATED from /repo on every run and [C05_facts_pinned] is the obligation
+    that breaks when the reading direction of the map, the external-label character, the short-map
+    test, the dict-based argument renaming or the shape of any helper / of build_model is edited.
+    Statements that mention [ext_bit_of gen_label_facts] type-check only while the regenerated
+    external-label character is "1".
+
+    Numbers: the dynamics theorems are proved for EVERY commutative ring with a ring morphism from Z
+    (IsoProofs.dynamics_collapse_rxn, used again by C16); they are stated here over Z. *)
+From Coq Require Import List ZArith NArith Bool Arith Permutation.
+From MxlBase Require Import ListX.
+From Label Require Import LModel Iso Linear GenLabelFacts Algebra IsoProofs IsoInitProofs IsoPropsZ.
+Import ListNotations.
+
 Theorem C05_facts_pinned :
   f_iso_dir gen_label_facts = IsoDocumented /\ f_ext_bit gen_label_facts = Some true /\
   f_short gen_label_facts = ShortLt0 /\ f_repl gen_label_facts = ReplDict /\ f_iso_helpers gen_label_facts = true.
 Proof. vm_compute. repeat split. Qed.
 Print Assumptions C05_facts_pinned.
+
+(** the labelling patterns of n positions: exactly the bit strings of length n, each once, 2^n of them *)
+Theorem C05_patterns_enumerated :
+  forall n, (forall p, In p (all_patterns n) <-> length p = n) /\ NoDup (all_patterns n) /\ length (all_patterns n) = 2 ^ n.
+Proof. exact patterns_enumerated. Qed.
+Print Assumptions C05_patterns_enumerated.
+
+(** exactly one isotopomer reaction per labelling pattern of the substrates: the generated names are
+    rate__<pattern><external 1s> for every pattern, pairwise distinct, 2^(sum of substrate labels) many *)
+Theorem C05_one_reaction_per_pattern :
+  forall (lv : label_vars) (r : brxn) (lmap : list Z) (rxns : list lrxn),
+    create_iso_rxns (ext_bit_of gen_label_facts) lv r lmap = Ok rxns ->
+    map lr_name rxns
+    = map (fun p => LIso (r_name r)
+                      (p ++ repeat true (total (labels_per lv (prods_of (r_stoich r)))
+                                         - total (labels_per lv (subs_of (r_stoich r))))))
+          (all_patterns (total (labels_per lv (subs_of (r_stoich r)))))
+    /\ NoDup (map lr_name rxns)
+    /\ length rxns = 2 ^ total (labels_per lv (subs_of (r_stoich r))).
+Proof. exact (one_reaction_per_pattern true). Qed.
+Print Assumptions C05_one_reaction_per_pattern.
+
+(** each generated reaction consumes and produces one isotopomer per unit of base stoichiometry: every
+    stoichiometric key is an isotopomer (right number of positions) of a compound of the base reaction
+    and, per compound, the coefficients over all its isotopomers sum to the base coefficient *)
+Theorem C05_collapse_stoichiometry :
+  forall (lv : label_vars) (r : brxn) (lmap : list Z) (rxns : list lrxn) (rx : lrxn),
+    NoDup (map fst (r_stoich r)) ->
+    create_iso_rxns (ext_bit_of gen_label_facts) lv r lmap = Ok rxns ->
+    total (labels_per lv (prods_of (r_stoich r))) <= length lmap ->
+    In rx rxns ->
+    (forall Y co, In (Y, co) (lr_stoich rx) ->
+       exists c q z, Y = iso_name c q /\ length q = nlab lv c /\ co = CZ z
+                     /\ (In c (subs_of (r_stoich r)) \/ In c (prods_of (r_stoich r))))
+    /\ (forall c, sumZ (map (fun bits => coefZ rx (iso_name c bits)) (all_patterns (nlab lv c)))
+                  = match getN c (r_stoich r) with Some v => v | None => 0%Z end).
+Proof. exact (collapse_stoichiometry true). Qed.
+Print Assumptions C05_collapse_stoichiometry.
+
+(** product position i carries the label of the substrate position the map names for i; positions beyond
+    the substrates enter labelled.  For every substrate pattern p the generated reaction is
+    [mk_iso_rxn .. (p ++ 1..1) psuffix] where psuffix[i] = (p ++ 1..1)[map[i]] (Python indexing), the
+    substrates consume exactly p and the products read psuffix from position 0 *)
+Theorem C05_positions :
+  forall (lv : label_vars) (r : brxn) (lmap : list Z) (rxns : list lrxn) (p : list bool),
+    create_iso_rxns (ext_bit_of gen_label_facts) lv r lmap = Ok rxns ->
+    In p (all_patterns (total (labels_per lv (subs_of (r_stoich r))))) ->
+    exists psuffix,
+      In (mk_iso_rxn lv r (p ++ repeat true (total (labels_per lv (prods_of (r_stoich r)))
+                                             - total (labels_per lv (subs_of (r_stoich r))))) psuffix) rxns
+      /\ length psuffix = length lmap
+      /\ (forall i m, nth_error lmap i = Some m ->
+            nth_error psuffix i
+            = py_index (p ++ repeat true (total (labels_per lv (prods_of (r_stoich r)))
+                                          - total (labels_per lv (subs_of (r_stoich r))))) m)
+      /\ concat (split_label (p ++ repeat true (total (labels_per lv (prods_of (r_stoich r)))
+                                                - total (labels_per lv (subs_of (r_stoich r)))))
+                             (labels_per lv (subs_of (r_stoich r)))) = p
+      /\ (total (labels_per lv (prods_of (r_stoich r))) <= length lmap ->
+          concat (split_label psuffix (labels_per lv (prods_of (r_stoich r))))
+          = firstn (total (labels_per lv (prods_of (r_stoich r)))) psuffix).
+Proof. exact (positions true). Qed.
+Print Assumptions C05_positions.
+
+(** what the Python index reads: a substrate position gives that substrate bit, a position beyond the
+    substrates gives 1 *)
+Theorem C05_index_reads :
+  forall (p : list bool) (k : nat) (m : Z),
+    ((0 <= m < Z.of_nat (length p))%Z -> py_index (p ++ repeat true k) m = nth_error p (Z.to_nat m))
+    /\ ((Z.of_nat (length p) <= m < Z.of_nat (length p + k))%Z -> py_index (p ++ repeat true k) m = Some true).
+Proof. exact (fun p k m => conj (py_index_substrate p (repeat true k) m) (py_index_external p true k m)). Qed.
+Print Assumptions C05_index_reads.
+
+(** a map shorter than the substrates' atoms is rejected -- by the reaction builder and by build_model *)
+Theorem C05_short_map_rejected :
+  forall (lv : label_vars) (lmaps : label_maps) (init : init_labels) (bm : bmodel) (r : brxn) (lmap : list Z),
+    length lmap < total (labels_per lv (subs_of (r_stoich r))) ->
+    create_iso_rxns (ext_bit_of gen_label_facts) lv r lmap = Err ErrValue
+    /\ (In r (b_rxns bm) -> getN (r_name r) lmaps = Some lmap ->
+        exists e, build_iso (ext_bit_of gen_label_facts) lv lmaps init bm = Err e).
+Proof.
+  exact (fun lv lmaps init bm r lmap H =>
+           conj (short_map_rejected true lv r lmap H)
+                (fun Hin Hm => build_short_map_rejected true lv lmaps init bm r lmap Hin Hm H)).
+Qed.
+Print Assumptions C05_short_map_rejected.
+
+(** total initial amount per compound is preserved and the label sits where requested.
+    FULL statement (all label counts): false of the code, see C05_zero_label_initial_refuted.
+    Proved under the guard `0 < n \/ no initial label requested for c`; positions outside 0..n-1 are
+    ignored by [init_suffix], so no guard on the positions is needed. *)
+Theorem C05_totals_preserved_partial :
+  forall (lv : label_vars) (init : init_labels) (bvars : list (N * Z)) (c : N) (v : Z) (n : nat),
+    NoDup (map fst bvars) ->
+    NoDup (map fst lv) ->
+    In (c, v) bvars ->
+    getN c lv = Some n ->
+    (0 < n \/ getN c init = None) ->
+    let target := match getN c init with
+                  | None => repeat false n
+                  | Some il => init_suffix n (positions_of il)
+                  end in
+    (forall bits, length bits = n ->
+       getL (iso_name c bits) (build_vars lv init bvars)
+       = Some (if list_eq_dec Bool.bool_dec bits target then v else 0%Z))
+    /\ sumZ (map (fun bits => match getL (iso_name c bits) (build_vars lv init bvars) with Some x => x | None => 0%Z end)
+                 (all_patterns n)) = v
+    /\ length target = n.
+Proof. exact totals_preserved. Qed.
+Print Assumptions C05_totals_preserved_partial.
+
+Theorem C05_zero_label_initial_refuted :
+  exists (lv : label_vars) (init : init_labels) (bvars : list (N * Z)) (c : N) (v : Z) (n : nat),
+    NoDup (map fst bvars) /\ NoDup (map fst lv) /\ In (c, v) bvars /\ getN c lv = Some n /\
+    sumZ (map (fun bits => match getL (iso_name c bits) (build_vars lv init bvars) with Some x => x | None => 0%Z end)
+              (all_patterns n)) <> v.
+Proof. exact zero_label_initial_refuted. Qed.
+Print Assumptions C05_zero_label_initial_refuted.
+
+(** dynamics: for a mapped mass-action reaction (rate = product of its arguments: every substrate
+    compound once, the remaining arguments unlabelled constants) the derivatives of the isotopomers of
+    any compound c sum to (base coefficient of c) * (base rate at the isotopomer totals), at EVERY state.
+    FULL statement (no DistinctSubstrates): false of the code, see C05_homodimer_refuted.
+    Guard: NoDup (subs_of (r_stoich r)) -- no compound twice on the substrate side. *)
+Theorem C05_dynamics_collapse_partial :
+  forall (lv : label_vars) (r : brxn) (lmap : list Z) (env : lname -> Z) (extra : list N) (c : N) (rxns : list lrxn),
+    r_fn r = FProd ->
+    Permutation (r_args r) (subs_of (r_stoich r) ++ extra) ->
+    NoDup (map fst (r_stoich r)) ->
+    NoDup (subs_of (r_stoich r)) ->
+    (forall a, In a extra -> ~ In a (subs_of (r_stoich r)) /\ ~ In a (prods_of (r_stoich r)) /\ nlab lv a = 0) ->
+    create_iso_rxns (ext_bit_of gen_label_facts) lv r lmap = Ok rxns ->
+    total (labels_per lv (prods_of (r_stoich r))) <= length lmap ->
+    sumZ (map (fun bits => derivZ env rxns (iso_name c bits)) (all_patterns (nlab lv c)))
+    = ((match getN c (r_stoich r) with Some v => v | None => 0 end)
+       * prodZ (map (totalZ lv env) (r_args r)))%Z.
+Proof. exact dynamics_collapse_rxn_Z. Qed.
+Print Assumptions C05_dynamics_collapse_partial.
+
+Theorem C05_homodimer_refuted :
+  exists (lv : label_vars) (r : brxn) (lmap : list Z) (env : lname -> Z) (extra : list N) (c : N) (rxns : list lrxn),
+    r_fn r = FProd /\
+    Permutation (r_args r) (subs_of (r_stoich r) ++ extra) /\
+    NoDup (map fst (r_stoich r)) /\
+    (forall a, In a extra -> ~ In a (subs_of (r_stoich r)) /\ ~ In a (prods_of (r_stoich r)) /\ nlab lv a = 0) /\
+    create_iso_rxns true lv r lmap = Ok rxns /\
+    total (labels_per lv (prods_of (r_stoich r))) <= length lmap /\
+    sumZ (map (fun bits => derivZ env rxns (iso_name c bits)) (all_patterns (nlab lv c))) = (-40)%Z /\
+    ((match getN c (r_stoich r) with Some v => v | None => 0 end) * prodZ (map (totalZ lv env) (r_args r)))%Z = (-32)%Z.
+Proof. exact homodimer_refuted. Qed.
+Print Assumptions C05_homodimer_refuted.
+
+(** non-vacuity: A(2 labels) + U(unlabelled) -> B(2 labels), arguments (U, k, A), map [1;0] *)
+Example C05_nonvacuous :
+  r_fn nv_rxn = FProd /\
+  Permutation (r_args nv_rxn) (subs_of (r_stoich nv_rxn) ++ [20%N]) /\
+  NoDup (map fst (r_stoich nv_rxn)) /\ NoDup (subs_of (r_stoich nv_rxn)) /\
+  (forall a, In a [20%N] -> ~ In a (subs_of (r_stoich nv_rxn)) /\ ~ In a (prods_of (r_stoich nv_rxn)) /\ nlab nv_lv a = 0) /\
+  (exists rxns, create_iso_rxns true nv_lv nv_rxn [1%Z; 0%Z] = Ok rxns /\ length rxns = 4) /\
+  total (labels_per nv_lv (prods_of (r_stoich nv_rxn))) <= length [1%Z; 0%Z].
+Proof. exact dynamics_nonvacuous. Qed.
+Print Assumptions C05_nonvacuous.
